@@ -228,6 +228,15 @@ func (C12) Generate(c *Ctx, r *Rand, index int) *Scenario {
 		// colours forced into the file: the same bytes as without -i
 		sc.Argv = append([]string{"-C"}, sc.Argv...)
 	}
+	if rt := r.Fork("terminal"); rt.Chance(1, 5) {
+		// standard output is a character device, as on a terminal: yq then turns colours on by itself, and
+		// must turn them off again for the file (the reference run prints into a pipe)
+		sc.StdoutCharDev = true
+	}
+	if rn := r.Fork("nulsep"); rn.Chance(1, 8) {
+		// NUL-separated records: the record rule must not reach the text after the front matter (O12.4)
+		sc.Argv = append([]string{"-0"}, sc.Argv...)
+	}
 	// second, hook-free fault layer: the real rename(2) is made to fail at the
 	// syscall boundary, which sends yq into the fallback on one file system too
 	straceOdds := 25
